@@ -7,11 +7,20 @@ package schedule
 //vx:overlay internal/schedule/zz_vx_c18.go
 //vx:entry vxC18Contains reach=inside,outside first_ms=1500
 //vx:stub (*time.Location).lookup vxC18Lookup
+//vx:stub time.initLocal vxC18InitLocal
 //vx:inverse time.dateToAbsDays (time.absDays).date
+//vx:entry vxC18Validate reach=accepted,rejected
+//vx:entry vxC18RoundTrip reach=yaml,json
+//vx:stub encoding/json.Marshal vxC18JSONMarshal
+//vx:stub encoding/json.Unmarshal vxC18JSONUnmarshal
+//vx:stub (*gopkg.in/yaml.v3.Node).Decode vxC18YAMLDecode
+//vx:stub time.LoadLocation vxC18LoadLocation
 //vx:note zone = symbolic offset function with <=2 transitions (offsets within +-15h); instant window 2019-01-01..2030-01-01 (quick) / 1970..2170 (thorough)
 
 import (
 	"time"
+
+	"gopkg.in/yaml.v3"
 
 	"github.com/AdguardTeam/AdGuardHome/internal/vx"
 )
@@ -20,13 +29,25 @@ import (
 var vxC18Zone struct {
 	o0, o1, o2 int64
 	t1, t2     int64
+	// local is the (fixed) offset of every other location, in particular of
+	// time.Local, which instants passed to Contains carry in production.
+	local int64
 }
+
+// vxC18Loc is the schedule's location.
+var vxC18Loc *time.Location
+
+// vxC18InitLocal replaces time.initLocal (reads $TZ and the zone files).
+func vxC18InitLocal() {}
 
 // vxC18Lookup replaces (*time.Location).lookup, the only access path of the
 // time package to the zone database.
 func vxC18Lookup(l *time.Location, sec int64) (name string, offset int, start, end int64, isDST bool) {
 	const alpha, omega = -1 << 63, 1<<63 - 1
 	z := &vxC18Zone
+	if l != vxC18Loc {
+		return "L", int(z.local), alpha, omega, false
+	}
 	switch {
 	case sec < z.t1:
 		return "Z0", int(z.o0), alpha, z.t1, false
@@ -63,8 +84,8 @@ func vxC18Contains() {
 
 	z := &vxC18Zone
 	const maxOff = 15 * 3600
-	z.o0, z.o1, z.o2 = vx.Int64("o0"), vx.Int64("o1"), vx.Int64("o2")
-	for _, o := range []int64{z.o0, z.o1, z.o2} {
+	z.o0, z.o1, z.o2, z.local = vx.Int64("o0"), vx.Int64("o1"), vx.Int64("o2"), vx.Int64("olocal")
+	for _, o := range []int64{z.o0, z.o1, z.o2, z.local} {
 		vx.Assume(-maxOff <= o)
 		vx.Assume(o <= maxOff)
 	}
@@ -73,7 +94,8 @@ func vxC18Contains() {
 	vx.Assume(lo-10*86400 <= z.t1)
 	vx.Assume(z.t2 <= hi+10*86400)
 
-	w := &Weekly{location: new(time.Location)}
+	vxC18Loc = new(time.Location)
+	w := &Weekly{location: vxC18Loc}
 	for i := range w.days {
 		s, e := vx.Int64("start"), vx.Int64("end")
 		// what validation accepts (minute granularity is irrelevant to Contains)
@@ -113,5 +135,108 @@ func vxC18Contains() {
 	}
 	if dr.start == 0 && dr.end == 0 {
 		vx.Assert(!got, "empty range covers no instant")
+	}
+}
+
+// vxC18Validate: a day range is accepted exactly when it is the zero range or
+// 0 <= start < end <= 24h with both ends on whole minutes.
+func vxC18Validate() {
+	s, e := vx.Int64("start"), vx.Int64("end")
+	w := &Weekly{}
+	err := w.validate(dayRange{start: time.Duration(s), end: time.Duration(e)})
+
+	// whole minutes, by witnesses: s = 60e9*ks + rs, 0 <= rs < 60e9 (floor division)
+	const minute = int64(time.Minute)
+	ks, rs := vx.Int64("q.ks"), vx.Int64("q.rs")
+	ke, re := vx.Int64("q.ke"), vx.Int64("q.re")
+	lim := int64(1) << 62 / minute
+	for _, k := range []int64{ks, ke} {
+		vx.Assume(-lim <= k)
+		vx.Assume(k <= lim)
+	}
+	for _, r := range []int64{rs, re} {
+		vx.Assume(0 <= r)
+		vx.Assume(r < minute)
+	}
+	vx.Assume(-(int64(1)<<62) <= s)
+	vx.Assume(s <= int64(1)<<62)
+	vx.Assume(-(int64(1)<<62) <= e)
+	vx.Assume(e <= int64(1)<<62)
+	vx.Assume(s == ks*minute+rs)
+	vx.Assume(e == ke*minute+re)
+
+	zeroRange := vx.And(s == 0, e == 0)
+	inDay := vx.And(vx.And(0 <= s, s < e), e <= int64(maxDayRange))
+	whole := vx.And(rs == 0, re == 0)
+	want := vx.Or(zeroRange, vx.And(inDay, whole))
+	if want {
+		vx.Reach("accepted")
+	} else {
+		vx.Reach("rejected")
+	}
+	vx.Assert((err == nil) == want, "range accepted iff zero, or 0 <= start < end <= 24h in whole minutes")
+}
+
+var vxC18Stash any
+
+func vxC18JSONMarshal(v any) ([]byte, error) {
+	vxC18Stash = v
+	return []byte("{}"), nil
+}
+
+func vxC18JSONUnmarshal(data []byte, v any) error {
+	*(v.(*weeklyConfigJSON)) = *(vxC18Stash.(*weeklyConfigJSON))
+	return nil
+}
+
+func vxC18YAMLDecode(n *yaml.Node, v any) error {
+	*(v.(*weeklyConfigYAML)) = vxC18Stash.(weeklyConfigYAML)
+	return nil
+}
+
+func vxC18LoadLocation(name string) (*time.Location, error) {
+	return vxC18Loc, nil
+}
+
+// vxC18RoundTrip: a valid schedule survives Marshal -> Unmarshal unchanged
+// (the encoders themselves hand the configuration structure across).
+func vxC18RoundTrip() {
+	vxC18Loc = time.UTC
+	w := &Weekly{location: vxC18Loc}
+	const minute = int64(time.Minute)
+	// one day symbolic (every valid whole-minute range), the six others
+	// concrete and pairwise different so that mixed-up days are visible
+	sym := vx.Choice("day", 7)
+	for i := range w.days {
+		if i != sym {
+			w.days[i] = dayRange{start: time.Duration(int64(i) * 60 * minute), end: time.Duration((int64(i)*60 + 90) * minute)}
+			continue
+		}
+		ks, ke := vx.Int64("ks"), vx.Int64("ke")
+		vx.Assume(0 <= ks)
+		vx.Assume(ks <= 24*60)
+		vx.Assume(0 <= ke)
+		vx.Assume(ke <= 24*60)
+		vx.Assume(vx.Or(vx.And(ks == 0, ke == 0), vx.And(ks < ke, ks < 24*60)))
+		w.days[i] = dayRange{start: time.Duration(ks * minute), end: time.Duration(ke * minute)}
+	}
+	got := &Weekly{}
+	if vx.Choice("codec", 2) == 0 {
+		vx.Reach("yaml")
+		v, err := w.MarshalYAML()
+		vx.Assert(err == nil, "MarshalYAML succeeds")
+		vxC18Stash = v
+		err = got.UnmarshalYAML(&yaml.Node{})
+		vx.Assert(err == nil, "UnmarshalYAML accepts a marshalled valid schedule")
+	} else {
+		vx.Reach("json")
+		_, err := w.MarshalJSON()
+		vx.Assert(err == nil, "MarshalJSON succeeds")
+		err = got.UnmarshalJSON([]byte("{}"))
+		vx.Assert(err == nil, "UnmarshalJSON accepts a marshalled valid schedule")
+	}
+	vx.Assert(got.location == w.location, "location survives")
+	for i := range w.days {
+		vx.Assert(got.days[i] == w.days[i], "day range survives the round trip")
 	}
 }
